@@ -31,7 +31,7 @@ THEOREMS_DOC = {
     'C06_exhaustion_silent': 'a known id >= 254 makes handle_id_request return the unchanged state and no response',
     'C06_exhaustion_silent_logic': '... and the dispatcher then returns the unchanged state and no reply',
     'C06_restart_keeps_reservations': 'with persistence a clean stop/restart keeps the whole list of known/reserved ids'}
-SCOPE = ["S", "tree"]
+SCOPE = ["S:idresp", "tree:nodes"]
 MONITORS = ["c06"]
 
 
